@@ -566,8 +566,9 @@ class Unit:
                 nm, elems = mo29.group(1), mo29.group(2)
                 n_el = len([x for x in elems.split(',') if x.strip()])
                 nl = text.count('\n')
-                text = (attrs_txt + "pub open spec fn %s_SPEC() -> Seq<u8> { seq![%s] } " % (nm, elems) +
-                        "pub exec const %s: &'static [u8] ensures %s@ == %s_SPEC(), %s@.len() == %d { let a: &'static [u8; %d] = &[%s]; assert(a@ =~= %s_SPEC()); a }" % (nm, nm, nm, nm, n_el, n_el, elems, nm) + '\n' * nl)
+                text = (attrs_txt + "#[verifier::opaque] pub open spec fn %s_SPEC() -> Seq<u8> { seq![%s] } " % (nm, elems) +
+                        "pub proof fn %s_SPEC_len() ensures %s_SPEC().len() == %d { reveal(%s_SPEC); } " % (nm, nm, n_el, nm) +
+                        "pub exec const %s: &'static [u8] ensures %s@ == %s_SPEC(), %s@.len() == %d { proof { reveal(%s_SPEC); } let a: &'static [u8; %d] = &[%s]; assert(a@ =~= %s_SPEC()); a }" % (nm, nm, nm, nm, n_el, nm, n_el, elems, nm) + '\n' * nl)
                 self.report['rewrites'].append({'rule': 'R29', 'file': repo_file, 'line': line(item.start), 'before': 'const %s: &[u8] = b".."' % nm, 'after': 'spec fn %s_SPEC + exec const %s ensures %s@ == %s_SPEC()' % (nm, nm, nm, nm)})
         text = self._apply_rewrites(text, file_rewrites, repo_file, line(item.attr_start))
         if tspec:
